@@ -134,22 +134,35 @@ Section LazyProofs.
     gen_result (four_sides_gen V0 known supported prop_validator tokens name).
   Proof.
     unfold expand_four_sides, four_sides_gen. destruct (any_var tokens); [reflexivity|].
-    destruct (four_tokens tokens); [|reflexivity]. apply validate_each_gen_agrees.
+    destruct (four_tokens_checked tokens); [|reflexivity]. apply validate_each_gen_agrees.
   Qed.
 End LazyProofs.
 
-(* refuted: a shorthand that is invalid after substitution still gives padding-top its value
-   (padding: 2px var(--p) with --p: solid ; atom 2 = 2px, ident solid is no padding) - replayed on the
-   implementation by the streams pending-direct and var-shared *)
-Theorem pending_shorthand_applies_partially :
+(* a shorthand that is invalid after substitution gives no longhand a value: validate() consumes the whole
+   generator before it picks the wanted longhand (it used to return at the first match: finding F161, repaired) *)
+Theorem pending_shorthand_all_or_nothing V (shorthand : string) (g : gen (string * V)) (keys : list string) :
+  all_or_nothing shorthand g keys = true.
+Proof.
+  unfold all_or_nothing, expander_validate. destruct (snd g); auto.
+  induction keys as [|k keys IH]; auto.
+Qed.
+
+Theorem expander_validate_is_eager V (shorthand : string) (g : gen (string * V)) (wanted : string) :
+  expander_validate V shorthand g wanted =
+  match gen_result g with
+  | Ok items => match find_key V shorthand items wanted with Some v => Ok v | None => Crash end
+  | Invalid => Invalid
+  | Crash => Crash
+  end.
+Proof. unfold expander_validate, gen_result. destruct (snd g); reflexivity. Qed.
+
+Example padding_partial_is_invalid :
   let pv := fun (n : string) (ts : list tok) => match ts with [TAtom k] => Some k | _ => None end in
   let tokens := [TAtom 2; TIdent "solid" "solid"] in
   let g := four_sides_gen Z (fun _ => true) (fun _ => true) pv tokens "padding" in
-  expand_four_sides Z (fun _ => true) (fun _ => true) pv tokens "padding" = Invalid /\
-  expander_validate (value Z) "padding" g "padding-top" = Ok (VVal 2%Z) /\
-  expander_validate (value Z) "padding" g "padding-right" = Invalid /\
-  all_or_nothing "padding" g ["padding-top"; "padding-right"; "padding-bottom"; "padding-left"] = false.
-Proof. repeat split; reflexivity. Qed.
+  expander_validate (value Z) "padding" g "padding-top" = Invalid /\
+  expander_validate (value Z) "padding" g "padding-right" = Invalid.
+Proof. split; reflexivity. Qed.
 
 (* the hypotheses are satisfiable: three elements, the first invalid *)
 Example run_example :
